@@ -385,17 +385,13 @@ impl WalRecuperator {
 
         let schema = table.schema();
 
-        if let Some(undo_row) =
-            Row::from_bytes_checked_with_snapshot(update_op.undo(), schema, &snapshot)?
-        {
-            if let Some(redo_row) =
-                Row::from_bytes_checked_with_snapshot(update_op.redo(), schema, &snapshot)?
-            {
-                // Redo: apply new state
-                self.dml_executor
-                    .update_row(table_id, &row_id, &undo_row, &redo_row)?;
-            }
-        }
+        // The logged images are decoded as they are: whether their writer is visible to the
+        // recovery transaction's snapshot says nothing about whether the operation is replayed.
+        let undo_row = Row::from_bytes_checked(update_op.undo(), schema)?;
+        let redo_row = Row::from_bytes_checked(update_op.redo(), schema)?;
+        // Redo: apply new state
+        self.dml_executor
+            .update_row(table_id, &row_id, &undo_row, &redo_row)?;
         Ok(())
     }
 
@@ -415,12 +411,9 @@ impl WalRecuperator {
 
         let schema = table.schema();
 
-        if let Some(row) =
-            Row::from_bytes_checked_with_snapshot(insert_op.redo(), schema, &snapshot)?
-        {
-            let columns = schema.column_indexes();
-            self.dml_executor.insert(table_id, &columns, &row)?;
-        }
+        let row = Row::from_bytes_checked(insert_op.redo(), schema)?;
+        let columns = schema.column_indexes();
+        self.dml_executor.insert(table_id, &columns, &row)?;
         Ok(())
     }
 }
